@@ -228,7 +228,9 @@ def run_pipeline(harness, cases, timeout=1800):
         import threading
         # a command line that sets up the process-wide metrics instance (push gateway / static labels) gets a process
         # of its own: that instance is built once per process, by the first command that runs in it
-        solo = [i for i in slow if cases[int(i)].startswith("cli ") and " pushgw=" in cases[int(i)]]
+        # (so does a command line that is expected to be able to kill its process: it must not take others with it)
+        solo = [i for i in slow if cases[int(i)].startswith("cli ") and
+                (" pushgw=" in cases[int(i)] or " failkind=paniccyclic" in cases[int(i)])]
         slow_shared = [i for i in slow if i not in set(solo)]
         k = max(1, min(len(slow_shared), int(os.environ.get("VERIF_PAR", "12"))))
         chunks = [c for c in (slow_shared[j::k] for j in range(k)) if c] + [[i] for i in solo]
